@@ -243,6 +243,28 @@ def bmc_run(pid, run, work, log):
     return res
 
 
+def second_solver(xq, work, name, cap=24):
+    """re-decides a sample of the engine's z3 queries (path condition + branch/assertion condition, exported as SMT-LIB2) with cvc5"""
+    out = {'solver': 'cvc5 (CLI, --tlimit=15000)', 'sampled': 0, 'agree': 0, 'disagree': 0, 'no_answer': 0}
+    procs = []
+    for i, (txt, verdict) in enumerate(xq[:cap]):
+        f = os.path.join(work, 'xq_%s_%d.smt2' % (name, i))
+        open(f, 'w').write('(set-logic ALL)\n' + txt)
+        procs.append((subprocess.Popen(['cvc5', '--tlimit=15000', f], stdout=subprocess.PIPE, stderr=subprocess.PIPE, text=True), verdict, f))
+    for p, verdict, f in procs:
+        try: o, e = p.communicate(timeout=30)
+        except subprocess.TimeoutExpired:
+            p.kill(); o, e = '', 'timeout'
+        ans = o.strip().split('\n')[0] if o.strip() else ''
+        out['sampled'] += 1
+        if ans in ('sat', 'unsat'):
+            if ans == verdict: out['agree'] += 1
+            else:
+                out['disagree'] += 1; out.setdefault('first_disagreement', 'z3=%s cvc5=%s query=%s' % (verdict, ans, open(f).read()[:1500]))
+        else: out['no_answer'] += 1
+    return out
+
+
 def explore_run(pid, run, tier, work, nproc, log):
     """returns dict with stats, violations (confirmed / unconfirmed), problems"""
     if getattr(run, 'kind', 'sym') == 'bmc': return bmc_run(pid, run, work, log)
@@ -257,6 +279,9 @@ def explore_run(pid, run, tier, work, nproc, log):
     log('  [%s] paths=%d steps=%d forks=%d queries=%d qtime=%.1fs wall=%.1fs violations=%d inconclusive=%d' % (
         run.name, tot['paths'], tot['steps'], tot['forks'], tot['queries'], tot['qtime'], tot['wall'], tot['nviol'], len(tot['inconclusive'])))
     for x in tot['inconclusive'][:5]: res['problems'].append('inconclusive: ' + x)
+    res['xcheck'] = second_solver(tot.pop('xq', []), work, run.name)
+    if res['xcheck']['disagree']:
+        res['problems'].append('SOLVER-DISAGREEMENT: cvc5 and z3 differ on %d of %d sampled path-condition queries of run %s (first: %s)' % (res['xcheck']['disagree'], res['xcheck']['sampled'], run.name, res['xcheck'].get('first_disagreement')))
     missing = [g for g in range(run.covers) if g not in tot['cover_wit']]
     optional = set(run.optional_covers)
     missing = [g for g in missing if g not in optional]
@@ -447,6 +472,9 @@ def write_evidence(pid, tier, seed, spec, runs, results, problems, nviol, wall):
                   'deadlock_states': r['tot']['deadlocks'], 'witnesses_validated_natively': r.get('validated', 0), 'violations': r['tot']['nviol']} for r in results],
         'functions_encoded': enc,
         'e_bmc': [dict(r['bmc'], run=r['name']) for r in results if 'bmc' in r],
+        'second_solver_crosscheck': {'what': 'a sample of the z3 queries of every run (path condition + branch/assertion condition, exported as SMT-LIB2) re-decided by cvc5; a disagreement makes the check INCONCLUSIVE',
+                                     'sampled': sum(r.get('xcheck', {}).get('sampled', 0) for r in results), 'agree': sum(r.get('xcheck', {}).get('agree', 0) for r in results),
+                                     'disagree': sum(r.get('xcheck', {}).get('disagree', 0) for r in results), 'no_answer_in_15s': sum(r.get('xcheck', {}).get('no_answer', 0) for r in results)},
         'support_tu_selftest': SUPPORT_SELFTEST,
         'outside_the_bounds': spec.outside,
         'problems': problems,
